@@ -663,6 +663,17 @@ def run_line(state, sx):
                 raise AssertionError('argument specification of an earlier object changed')
         chain, b = dump(g)
         assert b is base
+        # the observation the property names: `W(W(f)) == W(f)` with python's own ==, on objects whose specification has been requested
+        # (round j6: the dump below ignores the memo field `function_fullargspec`, wrapper.__eq__ compared it)
+        if made:
+            again = construct(cls, params, g)
+            if not (again == g and g == again) or again != g or g != again:
+                raise AssertionError('W(W(f)) == W(f) is False for python ==')
+            fresh = base
+            for c2, p2 in decos_dec(a[0]):
+                fresh = construct(c2, p2, fresh)
+            if not (fresh == g and g == fresh) or fresh != g:
+                raise AssertionError('the same applications on the same function give a wrapper that is not == (python ==)')
         # observation outside the property statement: did a constructor edit an earlier object in place?
         EXTRA['constructions'] = EXTRA.get('constructions', 0) + 1
         if any(enc([(c, p) for c, p in dump(o)[0]]) != d for o, d in made):
